@@ -394,4 +394,126 @@ Section Run.
     split; [exact Hle|]. split; [exact Hmax|].
     rewrite Hids, Hnews. split; [exact Hb|apply sorted_nodup; exact Hsorted].
   Qed.
+  (* ---------------------------------------------------------------- C06 *)
+  (* nothing lacks a reference in any file the run can read *)
+  Definition tree_complete (cfg : config) (rfail : nat -> bool) (files : list (list N)) : Prop :=
+    forall k b es, nth_error files k = Some b ->
+      file_entries finder cfg (rfail k) b = FEntries es -> filter missing_insert es = [].
+
+  Lemma insert_map_nothing i b es ctr flt :
+    filter missing_insert es = [] -> insert_map P i b es ctr flt = IRes (mkIres false 0 ctr [] [] false).
+  Proof. intros H. unfold insert_map. rewrite H. reflexivity. Qed.
+
+  Lemma pass_insert_complete cfg stop rfail flt : forall files i st,
+    (forall k b es, nth_error files k = Some b ->
+       file_entries finder cfg (rfail (i + k)%nat) b = FEntries es -> filter missing_insert es = []) ->
+    (forall k b, nth_error files k = Some b -> file_entries finder cfg (rfail (i + k)%nat) b <> FPanics /\
+                                              file_entries finder cfg (rfail (i + k)%nat) b <> FHangs) ->
+    let r := pass_insert P finder cfg stop rfail flt files i st in
+    is_effs (pres_state r) = is_effs st /\ is_ctr (pres_state r) = is_ctr st /\
+    is_ids (pres_state r) = is_ids st /\ is_failure (pres_state r) = is_failure st /\
+    is_count (pres_state r) = is_count st /\
+    (stop = None -> pres_ok r = true).
+  Proof.
+    induction files as [|b files IH]; intros i st Hc Hnp; cbn [pass_insert].
+    - destruct (stops stop i) eqn:Es; cbn; repeat split; auto.
+      intros ->. cbn in Es. discriminate.
+    - destruct (stops stop i) eqn:Es.
+      { cbn. repeat split; auto. intros ->. cbn in Es. discriminate. }
+      assert (Hc' : forall k b0 es, nth_error files k = Some b0 ->
+                file_entries finder cfg (rfail (S i + k)%nat) b0 = FEntries es -> filter missing_insert es = []).
+      { intros k b0 es Hn Hf. apply (Hc (S k) b0 es Hn). replace (i + S k)%nat with (S i + k)%nat by lia. exact Hf. }
+      assert (Hnp' : forall k b0, nth_error files k = Some b0 ->
+                file_entries finder cfg (rfail (S i + k)%nat) b0 <> FPanics /\
+                file_entries finder cfg (rfail (S i + k)%nat) b0 <> FHangs).
+      { intros k b0 Hn. replace (S i + k)%nat with (i + S k)%nat by lia. apply (Hnp (S k) b0 Hn). }
+      pose proof (Hnp 0%nat b eq_refl) as [Hp Hh]. rewrite Nat.add_0_r in Hp, Hh.
+      destruct (file_entries finder cfg (rfail i) b) as [| | |es] eqn:Efe; try congruence.
+      + apply IH; assumption.
+      + rewrite (insert_map_nothing i b es (is_ctr st) (flt i)).
+        * cbn [ir_ctr ir_failure ir_count ir_effs ir_ids].
+          assert (Hst : mkIst (is_ctr st) (is_failure st || false) (is_count st + 0) (is_effs st ++ [])
+                              (is_ids st ++ map (fun pi : N * N => (i, fst pi, snd pi)) []) = st).
+          { destruct st as [c f n e d]. cbn. rewrite orb_false_r, N.add_0_r, !app_nil_r. reflexivity. }
+          rewrite Hst. apply IH; assumption.
+        * apply (Hc 0%nat b es eq_refl). rewrite Nat.add_0_r. exact Efe.
+  Qed.
+
+  (* a tree in which no statement lacks a reference is a fixpoint: an edit run changes no source
+     byte and leaves the lock value as it is, and a check run passes *)
+  Theorem complete_tree_is_fixpoint rc files lk o :
+    files <> [] -> o_stop1 o = None -> o_stop2 o = None ->
+    tree_complete (rc_cfg rc) (o_rfail1 o) files -> tree_complete (rc_cfg rc) (o_rfail2 o) files ->
+    (forall k b rf, nth_error files k = Some b ->
+       file_entries finder (rc_cfg rc) rf b <> FPanics /\ file_entries finder (rc_cfg rc) rf b <> FHangs) ->
+    let out := run_edit P finder start_id rc (Some files) lk o in
+    let wf := apply_effs (mkWorld files [] lk) (ro_effs out) in
+    ro_exit out = XOk /\ ro_ids out = [] /\ w_src wf = files /\
+    (w_lock wf = lk \/ exists L, lk = LValid L /\ (w_lock wf = LValid L \/ w_lock wf = LCorrupt)).
+  Proof.
+    intros Hne Hs1 Hs2 Hc1 Hc2 Hnp. cbv zeta. unfold run_edit.
+    destruct files as [|b0 fs] eqn:Ef; [congruence|]. rewrite <- Ef in *. clear Hne.
+    destruct (cached_id rc lk) as [L|] eqn:Ec.
+    - (* cached: the insert pass finds nothing to do; the lock is rewritten with the same value *)
+      pose proof (pass_insert_complete (rc_cfg rc) (o_stop2 o) (o_rfail2 o) (o_fault o) files 0 (mkIst L false 0 [] []))
+        as Hp. cbn [Nat.add] in Hp.
+      destruct (Hp Hc2 (fun k b Hn => Hnp k b _ Hn)) as (A & B & Cc & D & E & F). clear Hp.
+      specialize (F Hs2).
+      destruct (pass_insert P finder (rc_cfg rc) (o_stop2 o) (o_rfail2 o) (o_fault o) files 0 (mkIst L false 0 [] []))
+        as [st|st|st|st]; cbn in F; try discriminate. cbn [pres_state is_effs is_ctr is_ids is_failure] in *.
+      rewrite A, B, Cc, D. cbn [ro_exit ro_ids ro_effs app].
+      split; [reflexivity|]. split; [reflexivity|].
+      assert (HL : lk = LValid L).
+      { unfold cached_id in Ec. destruct (rc_use_cache rc); [|discriminate]. destruct lk; try discriminate.
+        inversion Ec. reflexivity. }
+      unfold lock_effs. destruct (rc_use_cache rc); [|split; [reflexivity|left; reflexivity]].
+      destruct (o_lock_fault o); cbn; (split; [reflexivity|]).
+      + right. exists L. split; [exact HL|left; reflexivity].
+      + left. reflexivity.
+      + right. exists L. split; [exact HL|right; reflexivity].
+    - (* first pass: zero missing references, nothing to do *)
+      destruct (pass_nextid finder (rc_cfg rc) (o_stop1 o) (o_rfail1 o) files 0 []) as [a|a|a|rs] eqn:Ep1.
+      + exfalso. rewrite Hs1 in Ep1. clear - Ep1. revert Ep1. generalize 0%nat, (@nil (N * N)).
+        induction files as [|b files IH]; intros i acc H; cbn [pass_nextid stops] in H; [discriminate|].
+        destruct (file_entries finder (rc_cfg rc) (o_rfail1 o i) b); try discriminate; eauto.
+      + exfalso. clear - Ep1 Hnp. 
+        assert (G : forall fl i acc, (forall k b, nth_error fl k = Some b -> exists k', nth_error files k' = Some b) ->
+                  pass_nextid finder (rc_cfg rc) (o_stop1 o) (o_rfail1 o) fl i acc <> PPanic a).
+        { induction fl as [|b fl IH]; intros i acc Hsub; cbn [pass_nextid].
+          - destruct (stops (o_stop1 o) i); discriminate.
+          - destruct (stops (o_stop1 o) i); [discriminate|].
+            destruct (Hsub 0%nat b eq_refl) as [k' Hk'].
+            destruct (Hnp k' b (o_rfail1 o i) Hk') as [Hp _].
+            destruct (file_entries finder (rc_cfg rc) (o_rfail1 o i) b); try congruence; try discriminate;
+              apply IH; intros k b1 Hn; apply (Hsub (S k) b1 Hn). }
+        apply (G files 0%nat [] (fun k b Hn => ex_intro _ k Hn)). exact Ep1.
+      + exfalso. clear - Ep1 Hnp.
+        assert (G : forall fl i acc, (forall k b, nth_error fl k = Some b -> exists k', nth_error files k' = Some b) ->
+                  pass_nextid finder (rc_cfg rc) (o_stop1 o) (o_rfail1 o) fl i acc <> PHang a).
+        { induction fl as [|b fl IH]; intros i acc Hsub; cbn [pass_nextid].
+          - destruct (stops (o_stop1 o) i); discriminate.
+          - destruct (stops (o_stop1 o) i); [discriminate|].
+            destruct (Hsub 0%nat b eq_refl) as [k' Hk'].
+            destruct (Hnp k' b (o_rfail1 o i) Hk') as [_ Hh].
+            destruct (file_entries finder (rc_cfg rc) (o_rfail1 o i) b); try congruence; try discriminate;
+              apply IH; intros k b1 Hn; apply (Hsub (S k) b1 Hn). }
+        apply (G files 0%nat [] (fun k b Hn => ex_intro _ k Hn)). exact Ep1.
+      + destruct (pass_nextid_ok finder (rc_cfg rc) (o_stop1 o) (o_rfail1 o) files 0 [] rs Ep1)
+          as (news & -> & _ & Hinv). cbn [rev app].
+        assert (Hzero : forall mk, In mk news -> snd mk = 0).
+        { intros mk Hin. destruct (Hinv mk Hin) as (k & b & es & Hn & Hfe & ->).
+          destruct (nextid_map_spec es 0 0) as (_ & _ & Hsnd). rewrite Hsnd.
+          rewrite (Hc1 k b es Hn Hfe). reflexivity. }
+        unfold nextid_reduce. destruct (nextid_reduce_go news 0 0) as [mx miss] eqn:Ego.
+        pose proof (nextid_reduce_go_spec news 0 0) as Hspec. rewrite Ego in Hspec. cbn [fst snd] in Hspec.
+        destruct Hspec as (_ & _ & Hmiss).
+        assert (Hm0 : miss = 0).
+        { rewrite Hmiss. clear - Hzero. assert (G : forall (l : list (N * N)) (acc : N), (forall mk, In mk l -> snd mk = 0) ->
+                   fold_left (fun a (mk : N * N) => a + snd mk) l acc = acc).
+          { induction l as [|x l IH]; intros acc H; [reflexivity|]. cbn [fold_left].
+            rewrite (H x (or_introl eq_refl)), N.add_0_r. apply IH. intros mk Hin. apply H. right. exact Hin. }
+          apply G. exact Hzero. }
+        clear Hmiss. subst miss. destruct (mx =? 0); cbn; (split; [reflexivity|]); (split; [reflexivity|]);
+          (split; [reflexivity|left; reflexivity]).
+  Qed.
 End Run.
